@@ -1,0 +1,63 @@
+// Copyright 2025 The Go MCP SDK Authors. All rights reserved.
+// Use of this source code is governed by an MIT-style
+// license that can be found in the LICENSE file.
+
+//go:build verif
+
+// Contracts for the verification framework in /verif (comment-only; see /verif/DESIGN.md).
+// This file declares nothing and is compiled only with -tags verif.
+
+package oauthex
+
+// C15: which URLs the OAuth client helpers accept.
+//
+// safeScheme(u): u is empty, or parses and its scheme (case-insensitively) is none of javascript, data, vbscript.
+// httpsOrLoopback(u): u is empty, or parses and is https or names a loopback host.
+//@ pred safeScheme(u string) := u == "" || (urlOK(u) && lower(urlSchemeOf(u)) != "javascript" && lower(urlSchemeOf(u)) != "data" && lower(urlSchemeOf(u)) != "vbscript")
+//@ pred httpsOrLoopback(u string) := u == "" || (urlOK(u) && (loopbackAddr(urlHostOf(u)) || urlSchemeOf(u) == "https"))
+
+//@ func checkURLScheme [C15]
+//@   ensures @accepts-exactly-safe-schemes result == nil <==> safeScheme(u)
+//@ func checkHTTPSOrLoopback [C15]
+//@   ensures @accepts-exactly-https-or-loopback result == nil <==> httpsOrLoopback(addr)
+
+// validateAuthServerMetaURLs accepts a metadata document only if every URL field has a safe scheme and every endpoint
+// the client may call is https or loopback.
+//@ func validateAuthServerMetaURLs [C15]
+//@   requires asm != nil
+//@   ensures @every-url-field-has-a-safe-scheme result == nil ==> safeScheme(asm.AuthorizationEndpoint) && safeScheme(asm.TokenEndpoint) && safeScheme(asm.JWKSURI) && safeScheme(asm.RegistrationEndpoint) && safeScheme(asm.ServiceDocumentation) && safeScheme(asm.OpPolicyURI) && safeScheme(asm.OpTOSURI) && safeScheme(asm.RevocationEndpoint) && safeScheme(asm.IntrospectionEndpoint)
+//@   ensures @every-called-endpoint-is-https-or-loopback result == nil ==> httpsOrLoopback(asm.AuthorizationEndpoint) && httpsOrLoopback(asm.TokenEndpoint) && httpsOrLoopback(asm.RegistrationEndpoint) && httpsOrLoopback(asm.IntrospectionEndpoint)
+//@   loop 1: invariant @checked-so-far ($idx > 0 ==> safeScheme(asm.AuthorizationEndpoint)) && ($idx > 1 ==> safeScheme(asm.TokenEndpoint)) && ($idx > 2 ==> safeScheme(asm.JWKSURI)) && ($idx > 3 ==> safeScheme(asm.RegistrationEndpoint)) && ($idx > 4 ==> safeScheme(asm.ServiceDocumentation)) && ($idx > 5 ==> safeScheme(asm.OpPolicyURI)) && ($idx > 6 ==> safeScheme(asm.OpTOSURI)) && ($idx > 7 ==> safeScheme(asm.RevocationEndpoint)) && ($idx > 8 ==> safeScheme(asm.IntrospectionEndpoint))
+//@   loop 2: invariant @checked-so-far (safeScheme(asm.AuthorizationEndpoint) && safeScheme(asm.TokenEndpoint) && safeScheme(asm.JWKSURI) && safeScheme(asm.RegistrationEndpoint) && safeScheme(asm.ServiceDocumentation) && safeScheme(asm.OpPolicyURI) && safeScheme(asm.OpTOSURI) && safeScheme(asm.RevocationEndpoint) && safeScheme(asm.IntrospectionEndpoint)) && ($idx > 0 ==> httpsOrLoopback(asm.AuthorizationEndpoint)) && ($idx > 1 ==> httpsOrLoopback(asm.TokenEndpoint)) && ($idx > 2 ==> httpsOrLoopback(asm.RegistrationEndpoint)) && ($idx > 3 ==> httpsOrLoopback(asm.IntrospectionEndpoint))
+
+// GetAuthServerMeta: the document is fetched only from an https/loopback URL, and handed back only if its issuer
+// equals the one asked for, it advertises PKCE, and every URL in it passed validateAuthServerMetaURLs.
+//@ func GetAuthServerMeta [C15]
+//@   track getJSON as fetch
+//@   track authutil.IssuersEqual as sameIssuer
+//@   track validateAuthServerMetaURLs as validate
+//@   snapshot fetched after call getJSON
+//@   modifies *
+//@   ensures @fetch-only-from-https-or-loopback calls(fetch) <= 1 && (calls(fetch) == 1 ==> httpsOrLoopback(metadataURL) && callArg(fetch, 1, 2) == metadataURL)
+//@   ensures @metadata-used-only-if-issuer-matches result.0 != nil ==> result.1 == nil && calls(fetch) == 1 && result.0 == callResult(fetch, 1, 0) && calls(sameIssuer) == 1 && callResult(sameIssuer, 1, 0) && callArg(sameIssuer, 1, 0) == at(fetched, callResult(fetch, 1, 0).Issuer) && callArg(sameIssuer, 1, 1) == issuer
+//@   ensures @metadata-used-only-with-pkce result.0 != nil ==> at(fetched, len(callResult(fetch, 1, 0).CodeChallengeMethodsSupported)) > 0
+//@   ensures @metadata-used-only-if-urls-validated result.0 != nil ==> calls(validate) == 1 && callResult(validate, 1, 0) == nil && callArg(validate, 1, 0) == result.0
+
+// GetProtectedResourceMetadata: fetched only from an https/loopback URL; handed back only if its resource identifier
+// is the one asked for and every authorization server URL in it has a safe scheme and is https or loopback.
+//@ func GetProtectedResourceMetadata [C15]
+//@   track getJSON as fetch
+//@   snapshot fetched after call getJSON
+//@   modifies *
+//@   ensures @fetch-only-from-https-or-loopback calls(fetch) <= 1 && (calls(fetch) == 1 ==> httpsOrLoopback(metadataURL) && callArg(fetch, 1, 2) == metadataURL)
+//@   ensures @metadata-used-only-if-resource-matches result.0 != nil ==> result.1 == nil && calls(fetch) == 1 && result.0 == callResult(fetch, 1, 0) && at(fetched, result.0.Resource) == resourceURL
+//@   ensures @authorization-servers-are-safe result.0 != nil ==> (forall i int :: {absElem(at(fetched, result.0.AuthorizationServers), off(at(fetched, result.0.AuthorizationServers)) + i)} 0 <= i && i < at(fetched, len(result.0.AuthorizationServers)) ==> safeScheme(at(fetched, result.0.AuthorizationServers[i])) && httpsOrLoopback(at(fetched, result.0.AuthorizationServers[i])))
+//@   loop 1: invariant @checked-so-far local(prm) == callResult(fetch, 1, 0) && (forall i int :: {absElem(local(prm).AuthorizationServers, off(local(prm).AuthorizationServers) + i)} 0 <= i && i < $idx ==> safeScheme(local(prm).AuthorizationServers[i]) && httpsOrLoopback(local(prm).AuthorizationServers[i]))
+
+// Registration responses: every URL field handed back has a safe scheme.
+//@ func validateClientRegistrationURLs [C15]
+//@   requires meta != nil
+//@   ensures @fixed-url-fields-safe result == nil ==> safeScheme(meta.ClientURI) && safeScheme(meta.LogoURI) && safeScheme(meta.TOSURI) && safeScheme(meta.PolicyURI) && safeScheme(meta.JWKSURI)
+//@   ensures @redirect-uris-safe result == nil ==> (forall i int :: {absElem(meta.RedirectURIs, off(meta.RedirectURIs) + i)} 0 <= i && i < len(meta.RedirectURIs) ==> safeScheme(meta.RedirectURIs[i]))
+//@   loop 1: invariant @checked-so-far forall i int :: {absElem(meta.RedirectURIs, off(meta.RedirectURIs) + i)} 0 <= i && i < $idx ==> safeScheme(meta.RedirectURIs[i])
+//@   loop 2: invariant @checked-so-far (forall i int :: {absElem(meta.RedirectURIs, off(meta.RedirectURIs) + i)} 0 <= i && i < len(meta.RedirectURIs) ==> safeScheme(meta.RedirectURIs[i])) && ($idx > 0 ==> safeScheme(meta.ClientURI)) && ($idx > 1 ==> safeScheme(meta.LogoURI)) && ($idx > 2 ==> safeScheme(meta.TOSURI)) && ($idx > 3 ==> safeScheme(meta.PolicyURI)) && ($idx > 4 ==> safeScheme(meta.JWKSURI))
